@@ -156,6 +156,19 @@ Definition op_ok (s : state) (p : op) : Prop :=
   | _ => True
   end.
 
+Lemma W_sub_step ats s : W s -> W (fst (sub_step ats s)).
+Proof.
+  intros Ws. unfold sub_step. pose proof (W_step_sub ats s Ws) as K.
+  destruct (substructure ats (s_heap s) (s_cur s)) as [[[h2 o2] [e|]]|e]; exact K.
+Qed.
+Lemma W_split_loop cs : forall s old, W s -> W (mkS (s_heap s) (s_cur s) old) -> W (fst (split_loop cs s old)).
+Proof.
+  induction cs as [|c t IH]; intros [h o others] old Ws Wo; cbn [split_loop fst s_heap s_cur s_others] in *; [exact Ws|].
+  destruct (substructure_g false c h o) as [[[h2 o2] e]|err] eqn:E; [|exact Wo].
+  destruct (W_sub_g false c h o others h2 o2 e Ws E) as [X K].
+  destruct e as [e|]; [cbn [fst]; now apply (W_heap_ext h h2)|].
+  apply IH; [now apply K | cbn [s_heap s_cur]; now apply (W_heap_ext h h2)].
+Qed.
 Theorem step_W s p : W s -> op_ok s p -> W (fst (step s p)).
 Proof.
   intros Ws Ok. pose proof (W_cur s Ws) as Uc. destruct p; cbn [step op_ok] in *.
@@ -167,7 +180,14 @@ Proof.
   - apply W_strong; [exact Ws | apply remap_good | apply remap_strong].
   - now apply W_step_union.
   - pose proof (W_step_copy s Ws) as K. destruct (copy_mol false false (s_heap s) (s_cur s)) as [[h1 b]|e]; exact K.
-  - pose proof (W_step_sub ats s Ws) as K. destruct (substructure ats (s_heap s) (s_cur s)) as [[[h2 o2] [e|]]|e]; exact K.
+  - now apply W_sub_step.
+  - now apply W_sub_step.
+  - destruct (negb (subset_z ats (keys (o_atoms (s_cur s))))); [exact Ws|].
+    destruct (filter (fun n => negb (zmem n ats)) (keys (o_atoms (s_cur s)))); [exact Ws | now apply W_sub_step].
+  - destruct (negb (subset_z ats (keys (o_adj (s_cur s))))); [exact Ws|].
+    destruct (aug_grow (o_adj (s_cur s)) ats deep); [now apply W_sub_step | exact Ws].
+  - assert (W (fst (lift (read Kcc) s))) as W1 by (apply W_lift; [exact Ws | apply read_good | now apply read_HC]).
+    apply W_split_loop; [exact W1|]. destruct (fst (lift (read Kcc) s)); exact W1.
   - destruct s as [h o [|a t]]; [exact Ws | now apply W_swap].
   - apply W_strong; [exact Ws | apply flush_good | apply flush_strong].
   - now apply W_step_enter.
